@@ -2079,6 +2079,24 @@ class UTPM(Ring, RawAlgorithmsMixIn):
         else:
             xbar, ybar = out
 
+        # a constant (plain array) operand: lift it to a polynomial, its adjoint is discarded
+        D,P = z.data.shape[:2]
+        if not isinstance(x,cls):
+            tmp = cls(numpy.zeros((D,P) + numpy.shape(x),dtype=z.data.dtype))
+            tmp[...] = x
+            x = tmp
+
+        if not isinstance(xbar,cls):
+            xbar = cls(numpy.zeros((D,P) + x.shape,dtype=z.data.dtype))
+
+        if not isinstance(y,cls):
+            tmp = cls(numpy.zeros((D,P) + numpy.shape(y),dtype=z.data.dtype))
+            tmp[...] = y
+            y = tmp
+
+        if not isinstance(ybar,cls):
+            ybar = cls(numpy.zeros((D,P) + y.shape,dtype=z.data.dtype))
+
         cls._outer_pullback(zbar.data, x.data, y.data, z.data, out = (xbar.data, ybar.data))
         return (xbar,ybar)
 
